@@ -1,4 +1,4 @@
-use super::evaluator_numeric::value_as_f64;
+use super::evaluator_numeric::{cmp_int_float, value_as_f64};
 use super::evaluator_temporal_math::{compare_time_of_day, compare_time_with_offset};
 use super::evaluator_temporal_parse::parse_temporal_string;
 use super::{TemporalValue, Value};
@@ -26,16 +26,28 @@ fn compare_numbers_for_range<F>(left: &Value, right: &Value, cmp: &F) -> Value
 where
     F: Fn(Ordering) -> bool,
 {
-    let (l, r) = match (value_as_f64(left), value_as_f64(right)) {
-        (Some(l), Some(r)) => (l, r),
-        _ => return Value::Null,
+    // integers are compared as integers, and an integer with a float as the numbers they
+    // denote: going through f64 would make distinct integers above 2^53 compare equal
+    let ord = match (left, right) {
+        (Value::Int(l), Value::Int(r)) => Some(l.cmp(r)),
+        (Value::Int(l), Value::Float(r)) => cmp_int_float(*l, *r),
+        (Value::Float(l), Value::Int(r)) => cmp_int_float(*r, *l).map(Ordering::reverse),
+        _ => {
+            let (l, r) = match (value_as_f64(left), value_as_f64(right)) {
+                (Some(l), Some(r)) => (l, r),
+                _ => return Value::Null,
+            };
+            if l.is_nan() || r.is_nan() {
+                return Value::Bool(false);
+            }
+            l.partial_cmp(&r)
+        }
     };
-    if l.is_nan() || r.is_nan() {
-        return Value::Bool(false);
+    match ord {
+        Some(ord) => Value::Bool(cmp(ord)),
+        // only reachable when a float operand is NaN
+        None => Value::Bool(false),
     }
-    l.partial_cmp(&r)
-        .map(|ord| Value::Bool(cmp(ord)))
-        .unwrap_or(Value::Null)
 }
 
 fn compare_lists_for_range<F>(left: &[Value], right: &[Value], cmp: &F) -> Value
@@ -140,8 +152,13 @@ pub(super) fn order_compare_non_null(left: &Value, right: &Value) -> Option<Orde
         (Value::Bool(l), Value::Bool(r)) => Some(l.cmp(r)),
         (Value::Int(l), Value::Int(r)) => Some(l.cmp(r)),
         (Value::Float(l), Value::Float(r)) => Some(compare_f64_with_nan(*l, *r)),
-        (Value::Int(l), Value::Float(r)) => Some(compare_f64_with_nan(*l as f64, *r)),
-        (Value::Float(l), Value::Int(r)) => Some(compare_f64_with_nan(*l, *r as f64)),
+        // NaN sorts above every number; otherwise compare the denoted numbers exactly
+        (Value::Int(l), Value::Float(r)) => Some(cmp_int_float(*l, *r).unwrap_or(Ordering::Less)),
+        (Value::Float(l), Value::Int(r)) => Some(
+            cmp_int_float(*r, *l)
+                .map(Ordering::reverse)
+                .unwrap_or(Ordering::Greater),
+        ),
         (Value::String(l), Value::String(r)) => Some(compare_strings_with_temporal(l, r)),
         _ => {
             let rank_cmp = value_order_rank(left).cmp(&value_order_rank(right));
